@@ -290,6 +290,7 @@ MUST_FIRE += [
 
 MUST_STAY_SILENT = [
     # id, properties to run, edit, exit 2 tolerated?, note
+    ("s31", ["C18"], rep1(S + "f2_algebra.py", "    while h < m and k < n:\n        found = False\n        i = h\n        while not found and i < m:\n            if A[i, k] == 1:", "    while h <= m - 1 and k < n:\n        found = False\n        i = h\n        while not found and i < m:\n            if A[i, k] == 1:"), False, "cursor bound written as h <= m - 1: the same bound"),
     ("s29", ["C02", "C03", "C04", "C09", "C17"], rep1(S + "circuit_lookup.py", "                qc.cz(qubits[0], qubits[1])", "                qc.cz(qubits[1], qubits[0])"), False, "operands of the symmetric cz given in the other order: the same gate"),
     ("s30", ["C02", "C04"], rep1(S + "circuit_lookup.py", "                qc.cx(qubits[0], qubits[1])", "                qc.cx(qubits[1], qubits[0])"), False, "cx direction swapped: breaks the state (C03/C09: m100), not coupling or cost"),
     ("s01", ["C02", "C03", "C04", "C08", "C09", "C10", "C11", "C12", "C13", "C14", "C16", "C18", "C19"], _reformat, False, "comments / blank lines added everywhere"),
